@@ -1,5 +1,5 @@
 SPECIFICATION Spec
 CONSTANTS
-  Families = {"A", "B", "C1", "C2"}
+  Families = {"A", "B", "C1", "C2", "E"}
 PROPERTY DescriptionTrue
 CHECK_DEADLOCK FALSE
